@@ -81,7 +81,7 @@ func init() {
 
 // stopKinds is the stop-cause alphabet of C05 / C06.
 var stopKinds = []string{"none", "cancel_out", "cancel_gate", "cancel_in", "cancel_log", "handler_err_cancel", "deadline", "eof", "err", "fin", "rst", "short", "outofseq",
-	"handler_err", "mapper_err", "mapper_cols", "unsupported", "invalid", "undecodable", "refuse", "err_handshake", "err_query", "cancel_handshake", "cancel_query", "cancel_dial"}
+	"handler_err", "mapper_err", "mapper_cols", "unsupported", "invalid", "undecodable", "refuse", "err_handshake", "err_query", "cancel_handshake", "cancel_query", "dump_unsendable", "cancel_dial"}
 
 func stopHistOpt() gen.HistOpt {
 	o := gen.DefaultHistOpt(limits(), false)
@@ -117,7 +117,7 @@ func drawStop(rt *rapid.T, o gen.HistOpt, kinds []string) *StopCase {
 	ntx := len(l.Expected(hist.Pos{File: c.H.FirstFile, Off: c.H.Base}, 0))
 	k := rapid.SampledFrom(kinds).Draw(rt, "stop_kind")
 	switch k {
-	case "none", "cancel_gate", "refuse", "err_handshake", "err_query", "cancel_handshake", "cancel_dial":
+	case "none", "cancel_gate", "refuse", "err_handshake", "err_query", "cancel_handshake", "cancel_dial", "dump_unsendable":
 		c.Fault = Fault{Kind: k}
 	case "deadline":
 		c.Fault = Fault{Kind: k, At: rapid.IntRange(0, 20).Draw(rt, "deadline_ticks")}
@@ -157,6 +157,13 @@ func drawStop(rt *rapid.T, o gen.HistOpt, kinds []string) *StopCase {
 	if c.PrevOK {
 		c.PrevCancel = rapid.Bool().Draw(rt, "prev_cancel")
 	}
+	switch k {
+	case "cancel_out", "cancel_in", "cancel_gate", "cancel_log", "cancel_busy", "handler_err", "handler_err_cancel", "mapper_err", "mapper_cols", "unsupported", "invalid", "undecodable":
+		c.QuietAfter = rapid.Bool().Draw(rt, "quiet_after")
+	}
+	if rapid.IntRange(0, 4).Draw(rt, "late_deadline") == 0 {
+		c.LateDeadlineMs = rapid.IntRange(15, 40).Draw(rt, "late_deadline_ms")
+	}
 	if rapid.IntRange(0, 2).Draw(rt, "perturb") == 0 {
 		c.PerturbWho = rapid.IntRange(1, 3).Draw(rt, "perturb_who")
 		c.PerturbLevel = rapid.IntRange(1, 3).Draw(rt, "perturb_level")
@@ -181,6 +188,16 @@ func stopClasses(c *StopCase, o *StopObs) []string {
 	}
 	if c.PerturbWho != 0 {
 		cls = append(cls, fmt.Sprintf("perturb/who=%d/level=%d", c.PerturbWho, c.PerturbLevel))
+	}
+	if c.QuietAfter {
+		cls = append(cls, "master-silent-after-the-cause")
+	}
+	if c.LateDeadlineMs > 0 {
+		if o.CallerCancelled {
+			cls = append(cls, "deadline-expired-during-the-stream")
+		} else {
+			cls = append(cls, "deadline-expired-between-return-and-Error()")
+		}
 	}
 	cls = append(cls, fmt.Sprintf("cause/%s/reader=%s/handler=%d", c.Fault.Kind, o.ReaderAtStop, c.Handler))
 	return cls
